@@ -20,8 +20,33 @@ func main() {
 		genAll(os.Args[2])
 	case "cases":
 		runCases(os.Args[2:])
+	case "stress":
+		runStress(os.Args[2:])
 	default:
 		fmt.Fprintln(os.Stderr, "unknown subcommand", os.Args[1])
 		os.Exit(2)
 	}
 }
+
+// runStress: concurrent scenarios, meant to be run from the binary built with -race.
+func runStress(args []string) {
+	if len(args) != 3 {
+		fmt.Fprintln(os.Stderr, "usage: vharness stress <prop> <seed> <tier>")
+		os.Exit(2)
+	}
+	var seed int64
+	fmt.Sscan(args[1], &seed)
+	switch args[0] {
+	case "C17":
+		stressTT(seed, args[2])
+	default:
+		if fn, ok := stressFns[args[0]]; ok {
+			fn(seed, args[2])
+			return
+		}
+		fmt.Fprintln(os.Stderr, "no stress scenario for", args[0])
+		os.Exit(2)
+	}
+}
+
+var stressFns = map[string]func(seed int64, tier string){}
